@@ -17,10 +17,27 @@ E2E_KNOBS = {'max_tasks': 6, 'fail_share': 0.1, 'spawn_fail_share': 0.0,
 _egen, _erun = E.make_check(PROP, E2E_KNOBS, lambda sc, res: bool(sc['ops']))
 
 
+# focus raptor: requests which wait in the scheduler's raptor backlog are
+# named by a cancel request (world R of C20)
+from . import c20 as R                                             # noqa
+
+
 def gen(rng, tier):
-    if rng.random() < 0.15:
+    x = rng.random()
+    if x < 0.15:
         sc = _egen(rng, tier)
         sc['focus'] = 'e2e'
+        return sc
+    if x < 0.25:
+        sc = R.gen(rng, tier)
+        sc['focus'] = 'raptor'
+        sc['late_master'] = True
+        sc['cancel_backlog'] = True
+        for r in sc['reqs'][:rng.randint(2, 4)]:
+            r['at'] = 0.0
+            r.pop('via', None)
+            if r['mode'] == 'executable':
+                r['mode'], r['payload'], r['sleep'] = 'func', 'pl_ret', 0.0
         return sc
     return _gen(rng, tier)
 
@@ -28,17 +45,26 @@ def gen(rng, tier):
 def run(seed, sc, trace=None, tier='quick'):
     if sc.get('focus') == 'e2e':
         return _erun(seed, sc, trace, tier)
+    if sc.get('focus') == 'raptor':
+        res = R.run(seed, sc, trace, tier, prop=PROP)
+        res['nontrivial'] = True
+        return res
     return _run(seed, sc, trace, tier)
 
 
 def shrink(sc):
     if sc.get('focus') == 'e2e':
         return [dict(c, focus='e2e') for c in E.shrink(sc)]
+    if sc.get('focus') == 'raptor':
+        return [dict(c, focus='raptor') for c in R.shrink(sc)
+                if c.get('late_master') and len(c['reqs']) >= 2]
     return S.shrink(sc)
 SEEDS  = {'quick': 1200, 'thorough': 40000}
 BUDGET = {'quick': 240, 'thorough': 3000}
 INFO   = dict(S.INFO)
-INFO['real'] = INFO['real'] + ['focus e2e (15% of the runs): TaskManager.'
+INFO['real'] = INFO['real'] + ['focus raptor (10% of the runs): scheduler '
+                               'raptor backlog + cancel request, world R',
+                               'focus e2e (15% of the runs): TaskManager.'
                                'cancel_tasks -> crosswire forwarders -> '
                                'proxy -> pilot side components (world E2E)']
 INFO['rule'] = ('full agent / scheduler focus with 1-3 cancel requests naming '
